@@ -133,6 +133,53 @@ def lexer_inputs(rnd, tier, pid):
     return ins
 
 
+def escape_matrix():
+    """the finite tables behind C14: every byte after a backslash, every \\xHH (both cases), every \\ooo 000..777, \\u/\\U at
+    the code-point boundaries (incl. surrogates, U+FFFD, beyond U+10FFFF, short digit runs), in each literal form; number forms;
+    every pair of ASCII punctuation characters; every keyword in three spellings, alone and after a dot"""
+    out = []
+    forms = [(b'"', b'"'), (b"'", b"'"), (b"`", b"`"), (b'b"', b'"'), (b"B'", b"'"), (b'r"', b'"'), (b"rb'", b"'"), (b'"""', b'"""'),
+             (b"b'''", b"'''"), (b'R"""', b'"""'), (b"bR'", b"'")]
+    cps = [0, 1, 0x7f, 0x80, 0x7ff, 0x800, 0xd7ff, 0xd800, 0xdbff, 0xdc00, 0xdfff, 0xe000, 0xfffd, 0xfffe, 0xffff, 0x10000, 0x10ffff,
+           0x110000, 0x7fffffff, 0xffffffff]
+    for (o, c) in forms:
+        for b in range(256):
+            out.append(o + b"\\" + bytes([b]) + c)
+            out.append(o + b"\\" + bytes([b]) + b"00" + c)
+        for b in range(256):
+            out.append(o + b"\\x%02x" % b + c)
+            out.append(o + b"\\X%02X" % b + c)
+        for n in range(512):
+            out.append(o + b"\\%03o" % n + c)
+        for cp in cps:
+            if cp <= 0xffff:
+                out.append(o + b"\\u%04x" % cp + c)
+                out.append(o + b"\\u%04X" % cp + b"0" + c)
+            out.append(o + b"\\U%08x" % cp + c)
+            out.append(o + b"\\U%08X" % cp + c)
+        for short in (b"\\u", b"\\u1", b"\\u12", b"\\u123", b"\\U", b"\\U1234567", b"\\x", b"\\x1", b"\\0", b"\\01", b"\\08", b"\\"):
+            out.append(o + short + c)
+            out.append(o + short)
+    nums = [b"0", b"00", b"1", b"1.", b".1", b"1.1", b"1e1", b"1E1", b"1e+1", b"1e-1", b"1e", b"1e+", b"1.e1", b".1e1", b"1.1e1", b"1e1.1",
+            b"1e1e1", b"1..1", b"1.1.1", b"0x", b"0x1", b"0X1f", b"0xg", b"0x1g", b"0x1.1", b"0x1e1", b"1a", b"1_", b"1.a", b"1e1a", b".1a",
+            b"a.1", b"a.1e1", b"a .1", b"). 1", b"].1", b"@p.1", b"1 .1", b"a.1.1", b"a..1", b"1.1a", b"0b1", b"01", b"1x1"]
+    for n in nums:
+        for suf in (b"", b" ", b"+", b".", b"e", b"x", b"_", b"'", b"\n"):
+            out.append(n + suf)
+    punct = [bytes([c]) for c in range(33, 127) if not (48 <= c <= 57 or 65 <= c <= 90 or 97 <= c <= 122)]
+    for a in punct:
+        out.append(a)
+        for b in punct:
+            out.append(a + b)
+            out.append(a + b + b"a")
+    kws = props_quote.keywords_from_gen()
+    for k in kws:
+        low = k.lower(); mixed = k.capitalize()
+        for w in (k, low, mixed):
+            out += [w, b"a." + w, w + b"1", w + b"_", b"_" + w, w + b".x", b"@" + w, b"`" + w + b"`"]
+    return out
+
+
 def lexer_correspondence(res, mode, proj, oracle, label, on_oracle_fail, exh_len=None):
     """exhaustive + sampled comparison Go lexer vs extracted model under a projection; oracle failures are
     concrete violations; remaining disagreements break the correspondence obligation."""
@@ -185,11 +232,61 @@ def c13(res, st):
                         "token.KeywordsMap is read through the translator (Gen/Keywords.v)"]
 
 
+# ---------------------------------------------------------------- C14
+def c14(res, st):
+    std_coq(res, "C14", st)
+    if not (st["go"] and st["driver"]):
+        return
+    rnd = random.Random(res.seed)
+    n5 = 5 if res.tier == "quick" else 6
+    total = 0
+    mism = []
+    r = vlib.lex_exhaustive(gens.LEX_ALPHABET, n5, "p", b"", "c14r", "-")
+    total += r["n"]; mism += r["mismatches"]
+    for pre in LIT_PREFIXES:
+        r = vlib.lex_exhaustive(ESC_ALPHABET, 4 if res.tier == "quick" else 5, "p", pre, "c14r", "-")
+        total += r["n"]; mism += r["mismatches"]
+    ins = escape_matrix() + lexer_inputs(rnd, res.tier, "C14")
+    g, m = vlib.lex_cases(ins, "p", "c14r")
+    for x, y in zip(g, m):
+        if x != y:
+            mism.append((x.split(" => ")[0], x, y))
+    # the reference lexer IS the specification: an input on which the Go lexer differs from it is a failing input of C14
+    seen = set()
+    for (h, x, y) in mism:
+        if h in seen:
+            continue
+        seen.add(h)
+        res.violation("token stream differs from the reference lexer (kinds / token texts / decoded values / acceptance)",
+                      {"kind": "lex-c14", "input_hex": h, "observed": x.split(" => ", 1)[-1][:400], "reference": y.split(" => ", 1)[-1][:400]})
+    # and the model the theorem is about must be the code (all token fields, both modes are compared in C13/C03; here the C14 projection)
+    r2 = vlib.lex_exhaustive(gens.LEX_ALPHABET, 4, "p", b"", "c14", "-")
+    g2, m2 = vlib.lex_cases(ins, "p", "c14")
+    mm = r2["mismatches"] + [(x.split(" => ")[0], x, y) for x, y in zip(g2, m2) if x != y]
+    mm = [t for t in mm if t[0] not in seen]
+    res.obligation("correspondence lexer model: Go lexer == extracted model of lexer.go (kinds, boundaries, values) on %d strings" % (r2["n"] + len(ins)),
+                   not mm, "\n".join("%s\n  go:    %s\n  model: %s" % t for t in mm[:5]))
+    rejected = sum(1 for x in g if x.endswith("ERR"))
+    multi = len(set(x for x in g if x.count(",") > 6))
+    res.add_cases(total + len(ins), multi + total // 2, [g[0][:200], g[len(g) // 2][:200], g[-1][:200]])
+    res.extra["c14"] = {"exhaustive_strings": total, "matrix_and_sampled": len(ins), "rejected_in_matrix_and_sampled": rejected,
+                        "differences_from_reference": len(seen)}
+    res.cov["rule"] = ("Go lexer vs the extracted REFERENCE lexer (kind, token text, decoded value, base, acceptance): every string of <= N symbols "
+                       "over the 24-symbol lexical alphabet (N=5 quick, 6 thorough), every literal prefix x escape-alphabet word of <= 4/5 symbols, the "
+                       "escape/number/operator/keyword matrix (every byte after a backslash, every \\xHH and \\ooo, \\u/\\U at all code-point "
+                       "boundaries, in 11 literal forms; number forms x suffixes; all pairs of punctuation; every keyword in 3 spellings, alone and "
+                       "after a dot), corpus, random bytes, token soups, mutants; non-trivial = at least two tokens (counted on the explicit part, "
+                       "half of the exhaustive strings by construction of the alphabet)")
+    res.assumptions += ["the reference lexer (Lex/Reference.v) is the formal reading of the GoogleSQL lexical-structure page; places where the page is "
+                        "silent follow the pinned behaviour and are marked DOC-SILENT there",
+                        "unicode.IsSpace / utf8 decoding modelled (Base/Utf8.v) and swept against Go in C15"]
+
+
 CHECKS = {"C07": lambda res, st: props_parse.c07(res, st, std_coq), "C05": lambda res, st: props_parse.sampled(res, st, std_coq), "C06": lambda res, st: props_parse.sampled(res, st, std_coq),
           "C08": lambda res, st: props_parse.sampled(res, st, std_coq), "C10": lambda res, st: props_parse.sampled(res, st, std_coq),
           "C11": lambda res, st: props_parse.sampled(res, st, std_coq), "C16": lambda res, st: props_parse.sampled(res, st, std_coq),
           "C09": lambda res, st: props_parse.c09(res, st, std_coq), "C03": lambda res, st: props_parse.c03(res, st, std_coq, lexer_correspondence), "C18": lambda res, st: props_parse.c18(res, st, std_coq), "C04": lambda res, st: props_parse.c04(res, st, std_coq), "C01": lambda res, st: props_parse.c01(res, st, std_coq),
-          "C02": lambda res, st: props_parse.c01(res, st, std_coq), "C19": lambda res, st: props_tree.c19(res, st, std_coq), "C17": lambda res, st: props_tree.c17(res, st, std_coq), "C20": c20, "C13": c13, "C15": lambda res, st: props_quote.c15(res, st, std_coq), "C12": lambda res, st: props_split.c12(res, st, std_coq, lexer_inputs)}
+          "C02": lambda res, st: props_parse.c01(res, st, std_coq), "C19": lambda res, st: props_tree.c19(res, st, std_coq), "C17": lambda res, st: props_tree.c17(res, st, std_coq), "C20": c20, "C13": c13, "C14": c14, "C15": lambda res, st: props_quote.c15(res, st, std_coq), "C12": lambda res, st: props_split.c12(res, st, std_coq, lexer_inputs)}
 
 
 def run(pid, tier, seed):
